@@ -43,7 +43,7 @@ package forwarding
 //@   requires[base] transferAttr != nil && hypAttr != nil && !isnil(transferAttr.destinationCoin.Amount)
 //@   requires[base] len(hypAttr.TokenId) == 32 && len(hypAttr.Recipient) == 32 && (len(hypAttr.CustomHookId) == 0 || len(hypAttr.CustomHookId) == 32)
 //   what the Hyperlane module panics on (C14): established by HypAttributes.Validate and TransferAttributes.Validate
-//@   requires[base] val(transferAttr.destinationCoin.Amount) >= 0 && !isnil(hypAttr.GasLimit) && !isnil(hypAttr.MaxFee.Amount) &&
+//@   requires[C14]  val(transferAttr.destinationCoin.Amount) >= 0 && !isnil(hypAttr.GasLimit) && !isnil(hypAttr.MaxFee.Amount) &&
 //@                  (val(hypAttr.MaxFee.Amount) == 0 || (validDenom(hypAttr.MaxFee.Denom) && val(hypAttr.MaxFee.Amount) > 0))
 //@   modifies bank, out_n, out_kind, out_hyp
 //@   ensures[C05] out_n == old(out_n) + 1 && hypReqOK(transferAttr, hypAttr)
